@@ -484,7 +484,7 @@ Ltac enum_all :=
 
 Ltac core_unfold :=
   unfold verify_core, process_signature, process_plugin_response, native, any_critical_attribute,
-    spec_impl, should_fail_impl, spec_shape, expected_results, enforced_failure, plugin_unusable,
+    spec_impl, should_fail_impl, spec_shape, plugin_or_attribute_problem, expected_results, enforced_failure, plugin_unusable,
     plugin_exec_problem, nothing_processes, has_critical, noncrit_unprocessed,
     authenticity_failed, identity_failed, revocation_failed, asked, caps_of, accepted.
 
